@@ -111,6 +111,7 @@ def execute(h):
     decimal.getcontext().prec = cfg.get('decimal_prec', 28)
     model = decl.RefDir()
     model.noref_scaled = True
+    model.composite_symbols = True
     env = decl.Env()
     if cfg['variant'] == 'predefined':
         decl.seed_catalogue(model, env)
